@@ -1,0 +1,127 @@
+//! Verification hooks for the socket layer, compiled only with the
+//! `verif-hooks` feature (off by default).
+//!
+//! A deterministic simulator installs thread-local interceptors; while one is
+//! installed, [`super::BatchUdpSocket::send`] / `send_batch` and the downstream
+//! client socket's `send_to` / `try_send_to` hand their datagrams to it instead
+//! of the kernel. An interceptor may return `None` to fall through to the real
+//! syscall. With no interceptor installed every call behaves exactly as in a
+//! normal build, so the repository's own tests are unaffected by the feature.
+#![allow(dead_code, unused_imports)]
+
+use std::cell::RefCell;
+use std::io;
+use std::net::SocketAddr;
+use std::os::fd::RawFd;
+
+/// Which uplink send primitive is being called.
+#[derive(Debug, Clone, Copy, PartialEq, Eq)]
+pub enum UplinkCall {
+    /// `BatchUdpSocket::send` — one out-of-band datagram (keepalive, REG1/REG2).
+    Send,
+    /// `BatchUdpSocket::send_batch` — stream datagrams (one `sendmmsg` chunk).
+    SendBatch,
+}
+
+/// Which downstream-client send primitive is being called.
+#[derive(Debug, Clone, Copy, PartialEq, Eq)]
+pub enum ClientCall {
+    SendTo,
+    TrySendTo,
+}
+
+pub type UplinkInterceptor = Box<dyn FnMut(RawFd, UplinkCall, &[&[u8]]) -> Option<io::Result<usize>>>;
+pub type ClientInterceptor =
+    Box<dyn FnMut(ClientCall, &[u8], SocketAddr) -> Option<io::Result<usize>>>;
+
+thread_local! {
+    static UPLINK: RefCell<Option<UplinkInterceptor>> = const { RefCell::new(None) };
+    static CLIENT: RefCell<Option<ClientInterceptor>> = const { RefCell::new(None) };
+}
+
+pub fn set_uplink_interceptor(f: Option<UplinkInterceptor>) {
+    UPLINK.with(|u| *u.borrow_mut() = f);
+}
+
+pub fn set_client_interceptor(f: Option<ClientInterceptor>) {
+    CLIENT.with(|c| *c.borrow_mut() = f);
+}
+
+#[inline]
+pub(crate) fn intercept_uplink(
+    fd: RawFd,
+    call: UplinkCall,
+    bufs: &[&[u8]],
+) -> Option<io::Result<usize>> {
+    UPLINK.with(|u| u.borrow_mut().as_mut().and_then(|f| f(fd, call, bufs)))
+}
+
+#[inline]
+pub(crate) fn intercept_client(
+    call: ClientCall,
+    buf: &[u8],
+    target: SocketAddr,
+) -> Option<io::Result<usize>> {
+    CLIENT.with(|c| c.borrow_mut().as_mut().and_then(|f| f(call, buf, target)))
+}
+
+/// Shadowing wrapper for the downstream client socket: same two methods the
+/// shell uses, consulting the interceptor first.
+pub struct ClientSock<'a>(&'a tokio::net::UdpSocket);
+
+impl<'a> ClientSock<'a> {
+    pub fn wrap(sock: &'a tokio::net::UdpSocket) -> Self {
+        Self(sock)
+    }
+
+    pub async fn send_to(&self, buf: &[u8], target: SocketAddr) -> io::Result<usize> {
+        if let Some(r) = intercept_client(ClientCall::SendTo, buf, target) {
+            return r;
+        }
+        self.0.send_to(buf, target).await
+    }
+
+    pub fn try_send_to(&self, buf: &[u8], target: SocketAddr) -> io::Result<usize> {
+        if let Some(r) = intercept_client(ClientCall::TrySendTo, buf, target) {
+            return r;
+        }
+        self.0.try_send_to(buf, target)
+    }
+}
+
+thread_local! {
+    static YIELD_ENABLED: std::cell::Cell<bool> = const { std::cell::Cell::new(false) };
+}
+
+/// Turn the cooperative yield points on or off for this thread. Only a
+/// simulator executor turns them on.
+pub fn set_yield_points(enabled: bool) {
+    YIELD_ENABLED.with(|y| y.set(enabled));
+}
+
+/// A scheduling point for a simulator executor: returns `Pending` exactly once
+/// (after waking itself) when yield points are enabled on this thread, and is
+/// immediately ready otherwise.
+pub fn yield_point() -> YieldPoint {
+    YieldPoint { yielded: false }
+}
+
+pub struct YieldPoint {
+    yielded: bool,
+}
+
+impl std::future::Future for YieldPoint {
+    type Output = ();
+
+    fn poll(
+        mut self: std::pin::Pin<&mut Self>,
+        cx: &mut std::task::Context<'_>,
+    ) -> std::task::Poll<()> {
+        if self.yielded || !YIELD_ENABLED.with(|y| y.get()) {
+            return std::task::Poll::Ready(());
+        }
+        self.yielded = true;
+        cx.waker().wake_by_ref();
+        std::task::Poll::Pending
+    }
+}
